@@ -834,11 +834,15 @@ class InterpBuiltins:
 
     def bi_same(self, args, kw, line):
         """same(a, b): a and b are the same scalar value (for fp64: bitwise the same datum, so same(nan, nan) holds while
-        nan == nan does not)"""
+        nan == nan does not) or the same object (containers, instances)"""
         a, b = args
         if self.is_fp(a) or self.is_fp(b):
             ta, tb = self.fp_terms(a, b)
             return self.bool_value(ta == tb)
+        if isinstance(a, HeapVal) and isinstance(b, HeapVal):
+            return self.bool_value(a.ref == b.ref)      # the same object
+        if isinstance(a, tuple) and isinstance(b, tuple) and len(a) == len(b):
+            return self.bool_value(self.conj([self.as_bool(self.truthy(self.bi_same([x, y], {}, line))) for x, y in zip(a, b)]))
         return self.bool_value(self.eq(a, b))
 
     def bi_old_heap(self, args, kw, line):
